@@ -18,7 +18,14 @@ def gen_cases(ctx, n):
         if mode == "std":
             w, h = max(4, (w + 3) // 4 * 4), max(4, (h + 3) // 4 * 4)
         # a high-entropy reference: dense intra picture
-        bi, di = picgen.gen_picture(rng, mode, "I", w, h, quant=rng.range(1, 31), sparse=8, stuffing_p=0)
+        # standard mode: a third with baseline PTYPE headers, a third PLUSPTYPE (custom format) on both pictures, a third
+        # PLUSPTYPE on the reference and a predicted picture that does not retransmit format and modes (UFEP = 000)
+        plus_i = plus_p = None
+        if mode == "std" and (i // 3) % 3 == 1:
+            plus_i, plus_p = {}, {}
+        if mode == "std" and (i // 3) % 3 == 2:
+            plus_i, plus_p = {}, {"ufep": 0}
+        bi, di = picgen.gen_picture(rng, mode, "I", w, h, quant=rng.range(1, 31), sparse=8, stuffing_p=0, plus=plus_i)
         kind = i % 8
         mbn = ((w + 15) // 16) * ((h + 15) // 16)
         trunc = None
@@ -31,7 +38,7 @@ def gen_cases(ctx, n):
             allow = [S.INTER, S.INTERQ]
         pt = "D" if (mode != "std" and i % 5 == 0) else "P"
         bp, dp = picgen.gen_picture(rng, mode, pt, w, h, quant=rng.range(1, 31), sparse=rng.choice([1, 4, 8]),
-                                    truncate_mbs=trunc, allow=allow, uncoded_p=rng.choice([0, 2, 5]))
+                                    truncate_mbs=trunc, allow=allow, uncoded_p=rng.choice([0, 2, 5]), plus=plus_p)
         dp["truncated"] = trunc is not None
         data_p = bp.to_bytes()
         if trunc is not None:
